@@ -66,6 +66,7 @@ class ItemSpec:
         self.inserts = []     # (where, n, m, regex, text)  executable text inserted (reported as rewrite)
         self.sig = None       # for lifted closures / blocks
         self.keep_attrs = False
+        self.attrs = []       # verifier attributes put in front of the emitted fn (ghost: no effect on executable code)
         self.vac = True       # emit vacuity probe
 
 
@@ -105,6 +106,7 @@ def parse_template(path):
             elif word == "param": item.params.append(rest)
             elif word == "rename": item.rename = rest
             elif word == "keep-attrs": item.keep_attrs = True
+            elif word == "attr": item.attrs.append(rest)
             elif word == "no-vac": item.vac = False
             elif word == "sig": item.sig = rest
             elif word == "addarg":
@@ -296,6 +298,8 @@ def build_item(spec, vacuity=False, unit_calls=None):
         orig = text[lo:hi]
         if src.is_ident(it.start_tok, "pub"):
             add(it.start, toks[it.kw_tok][1], [])
+        if spec.attrs:
+            add(toks[it.kw_tok][1], toks[it.kw_tok][1], [Seg("\n".join(spec.attrs) + "\n", "attr")])
         if spec.rename:
             add(toks[fp.name_tok][1], toks[fp.name_tok][2], [Seg(spec.rename, "rename")])
             report["rewrites"].append({"kind": "rename", "to": spec.rename})
